@@ -63,6 +63,45 @@ def deny_return(g, node, label, statuses):
     return False, None
 
 
+def deny_return_ps(X, node, label, statuses, sinks):
+    """path-sensitive form: every feasible path that starts with the given edge ends in `return HTTPError(<status>)` (the value may
+    have been parked in a local on the way) or a raise, before any sink"""
+    terms = X.terminals_from_edge(node, label, until=sinks)
+    if not terms:
+        return False, None
+    st_seen = None
+    for (n, state) in terms:
+        if n.kind == 'stmt' and isinstance(n.ast, ast.Raise):
+            st_seen = st_seen or 'raise'
+            continue
+        if not (n.kind == 'stmt' and isinstance(n.ast, ast.Return)):
+            return False, None
+        v = X.value_at(n, state, n.ast.value) if n.ast.value is not None else None
+        if not (isinstance(v, ast.Call) and dotted(v.func) in ('HTTPError', 'HTTPResponse')):
+            return False, None
+        st = const(v.args[0]) if v.args else None
+        for kw in v.keywords:
+            if kw.arg == 'status':
+                st = const(kw.value)
+        if st not in statuses:
+            return False, st
+        st_seen = st
+    return True, st_seen
+
+
+def deref(f, e, at):
+    """follow a local temporary to the expression bound to it (one reaching, non self-referential `name = <expr>`)"""
+    k = 0
+    while isinstance(e, ast.Name) and f.rd.is_local(e.id) and k < 6:
+        ds = f.rd.at(at, e.id)
+        if len(ds) == 1 and ds[0].kind == 'assign' and ds[0].value is not None and e.id not in names_loaded(ds[0].value):
+            e, at = ds[0].value, ds[0].node
+            k += 1
+        else:
+            break
+    return e, at
+
+
 def helper_return_exprs(P, f, call):
     """if `call` invokes a package-level helper function, return (helper Func, [return exprs])"""
     d = dotted(call.func)
@@ -88,6 +127,7 @@ def root_shape_ok(P, f, expr, at_node, R, depth=0):
         return (not bad, bad[0][1] if bad else '')
     if isinstance(expr, ast.BinOp) and isinstance(expr.op, ast.Add):
         l, r = expr.left, expr.right
+        l = deref(f, l, at_node)[0]
         sep_ok = dotted(r) in ('os.sep', 'os_path.sep', 'os.path.sep') or (isinstance(r, ast.Constant) and r.value == '/')
         abs_ok = isinstance(l, ast.Call) and call_attr(l) in ('abspath', 'realpath') and l.args
         if not sep_ok:
@@ -155,15 +195,20 @@ def check(P, R):
     R.require(guards, 'static_file has no `name.startswith(root)` test')
     sinks = [c for fn, c in sinks_all if fn is f]
     name_var = None
+    from ..paths import Explorer
+    X = Explorer(f, P)
+    sink_nodes = [g.node_of_stmt(c)[0] for c in sinks]
     for c in sinks:
         cn = g.node_of_stmt(c)[0]
         arg = c.args[0] if c.args else None
-        dom = [(n, t, lab) for (n, t, lab) in guards if g.edge_dominates(n, lab, cn)]
+        dom = [(n, t, lab) for (n, t, lab) in guards if g.edge_dominates(n, lab, cn) or X.edge_dominates(n, lab, cn)]
         R.ob('C16.b', f, c, bool(dom), detail='' if dom else 'the open() is not dominated by the pass edge of the prefix test',
              why='a path outside the root would be opened')
         for (n, t, lab) in dom:
             deny = 'true' if lab == 'false' else 'false'
             okd, st = deny_return(g, n, deny, {403, 404})
+            if not okd:
+                okd, st = deny_return_ps(X, n, deny, {403, 404}, sink_nodes)
             R.ob('C16.b', f, n.ast, okd, text=f'{short(n.ast)} -> {st}', detail='' if okd else
                  f'the failing edge of the prefix test does not return 403/404 (got {st})')
             gname = t.func.value.id
@@ -180,7 +225,7 @@ def check(P, R):
             R.ob('C16.c', f, n.ast, okr, text=f'root operand of {short(t)}', detail=detr,
                  why='without the trailing separator /srv/static-private passes the test for root /srv/static', key_extra='root')
             # name = abspath(join(root, <param filename>))
-            defs = rd.at(n, gname)
+            defs = rd.root_defs(n, gname)
             okf = bool(defs)
             detf = ''
             for d in defs:
@@ -188,19 +233,21 @@ def check(P, R):
                 if not (d.kind == 'assign' and isinstance(v, ast.Call) and call_attr(v) in ('abspath', 'realpath') and v.args):
                     okf, detf = False, f'`{gname}` is not abspath(...) at the guard ({short(v) if v is not None else d.kind})'
                     break
-                j = v.args[0]
+                j, jat = deref(f, v.args[0], d.node)
                 if not (isinstance(j, ast.Call) and call_attr(j) == 'join' and len(j.args) >= 2):
                     okf, detf = False, f'`{gname}` is not abspath(join(root, name)) ({short(v)})'
                     break
                 r0 = j.args[0]
-                if not (isinstance(r0, ast.Name) and isinstance(rootarg, ast.Name) and r0.id == rootarg.id
-                        and rd.same_defs(d.node, n, rootarg.id)):
+                if not (isinstance(r0, ast.Name) and isinstance(rootarg, ast.Name)
+                        and set(rd.root_defs(jat, r0.id)) == set(rd.root_defs(n, rootarg.id)) and rd.root_defs(n, rootarg.id)):
                     okf, detf = False, 'the join does not start from the same normalised root that the guard compares with'
                     break
-                rest_names = set()
+                from_param = False
                 for a in j.args[1:]:
-                    rest_names |= names_loaded(a)
-                if 'filename' not in rest_names and not (set(f.params) & rest_names):
+                    for x_ in rd.closure(a, jat):
+                        if not isinstance(x_[0], ast.AST) and x_[0].kind == 'param' and x_[0].name == f.params[0]:
+                            from_param = True
+                if not from_param:
                     okf, detf = False, 'the joined name does not come from the filename argument'
                     break
             R.ob('C16.c', f, n.ast, okf, text=f'name operand of {short(t)}', detail=detf, key_extra='name')
@@ -226,8 +273,10 @@ def check(P, R):
                 else:
                     deny = 'false'
                 passl = 'false' if deny == 'true' else 'true'
-                if g.edge_dominates(n, passl, cn):
+                if g.edge_dominates(n, passl, cn) or X.edge_dominates(n, passl, cn):
                     okd, st = deny_return(g, n, deny, statuses)
+                    if not okd:
+                        okd, st = deny_return_ps(X, n, deny, statuses, sink_nodes)
                     argok = all(x.args and isinstance(x.args[0], ast.Name) and x.args[0].id == name_var
                                 and rd.same_defs(n, cn, name_var) for x in calls)
                     found = True
